@@ -431,7 +431,7 @@ def run(ctx):
         "tlc": {"module": "MCLayout", "configs": [cfg for cfg, _ in runs], "wall_s": round(sum(r.wall for _, r in runs), 1),
                 "invariants": ["ReportTiles", "ReportAltTiles", "TopTiles(=ShapeReport)", "ReportAligned", "FieldsWellPlaced",
                                "OptimizeLaws(permutation, sorted, never larger, tight)",
-                               "OptimizeRNeverGrows", "OptimizeTight", "AppendStable(action)", "ASSUME Examples"]},
+                               "OptimizeRNeverGrows", "OptimizeAltNeverGrows", "AppendStable(action)", "ASSUME Examples"]},
         "phase_wall_s": phases,
         "smoke_mode": SMOKE,
         "structs_enumerated": len(cases),
@@ -481,7 +481,7 @@ def cli_verdicts(ctx, by_idx, cli, verdicts):
             if bad:
                 opt_mism.setdefault((mode, bad[0], json.dumps(feat, sort_keys=True)), []).append((c, r, v))
             else:
-                want = c["optsize"] if mode == "opt" else c["roptsize"]
+                want = c["altoptsize"] if mode == "opt" else c["altroptsize"]
                 if v["total"] != want and len(ctx.notes) < 5:
                     ctx.note("drift: optimize%s prints a valid layout of %d bytes for %s, the sorted order of Layout.tla needs %d" %
                              (" -r" if mode == "optr" else "", v["total"], describe(c), want))
